@@ -425,3 +425,159 @@ mutant('c06-compdb-flag-order', ['C06'], CP,
        "                               compiler.global_flags +\n"
        "                               compiler.flags(gopts, mode='global'))",
        'flag-order')
+
+# -------------------------------------------------------------------- C09
+ENVF = 'bfg9000/environment.py'
+mutant('c09-field-not-saved', ['C09'], ENVF,
+       "                    'compdb': self.compdb,\n", "", 'ENV-FIELDS')
+mutant('c09-field-not-loaded', ['C09'], ENVF,
+       "        env.compdb = data['compdb']\n", "        env.compdb = True\n",
+       'ENV-FIELDS')
+mutant('c09-new-attr-unsaved', ['C09'], ENVF,
+       "        self.compdb = compdb\n",
+       "        self.compdb = compdb\n        self.strict_mode = False\n",
+       'ENV-FIELDS')
+mutant('c09-upgrade-gap', ['C09'], ENVF,
+       "        if version < 16:\n            data['compdb'] = True\n", "",
+       'UPGRADE-CHAIN')
+mutant('c09-version-bumped-no-step', ['C09'], ENVF,
+       "    version = 17\n", "    version = 18\n", 'UPGRADE-CHAIN')
+mutant('c09-ior-removed', ['C09'], ENVF,
+       "    def __ior__(self, rhs):\n        self.update(rhs)\n"
+       "        return self\n", "", 'MUTATORS')
+mutant('c09-pop-untracked', ['C09'], ENVF,
+       "        if key in self:\n            self.changes[key] = None\n"
+       "        return super().pop(key, *args, **kwargs)",
+       "        return super().pop(key, *args, **kwargs)", 'MUTATORS')
+mutant('c09-update-bypasses', ['C09'], ENVF,
+       "        for k, v in dict(*args, **kwargs).items():\n"
+       "            self[k] = v\n",
+       "        super().update(*args, **kwargs)\n", 'MUTATORS')
+mutant('c09-which-ambient', ['C09'], 'bfg9000/builtins/toolchain.py',
+       "shell.which(names, context.env.variables,\n"
+       "                                    resolve=resolve, kind=kind)",
+       "shell.which(names, resolve=resolve,\n"
+       "                                    kind=kind)", 'AMBIENT')
+mutant('c09-ar-ambient', ['C09'], 'bfg9000/tools/cc/__init__.py',
+       "        ar_which = check_which(env.getvar(arinfo.var('linker'), 'ar'),\n"
+       "                               env.variables, kind='static linker')",
+       "        ar_which = check_which(env.getvar(arinfo.var('linker'), 'ar'),\n"
+       "                               kind='static linker')", 'AMBIENT')
+mutant('c09-getenv-in-tool', ['C09'], 'bfg9000/tools/cc/__init__.py',
+       "            shell.split(env.getvar('CPPFLAGS', '')) +",
+       "            shell.split(__import__('os').environ.get('CPPFLAGS', '')) +"
+       if False else
+       "            shell.split(os.environ.get('CPPFLAGS', '')) +", 'AMBIENT')
+mutant('c09-ninja-clean-ambient', ['C09'], 'bfg9000/builtins/clean.py',
+       "ninja.executable(env.variables)", "ninja.executable()", 'AMBIENT')
+mutant('c09-version-str-none', ['C09'], ENVF,
+       "'backend_version': try_to_str(self.backend_version),",
+       "'backend_version': str(self.backend_version),", 'NULLABLE-ROUNDTRIP')
+mutant('c09-regenerate-fresh-env', ['C09'], 'bfg9000/driver.py',
+       "        env = Environment.load(args.builddir.string())\n"
+       "        if env.toolchain.path:",
+       "        env = Environment.load(args.builddir.string())\n"
+       "        env.variables = type(env.variables)(dict(os.environ))\n"
+       "        if env.toolchain.path:", 'AMBIENT')
+mutant('c09-no-reload', ['C09'], 'bfg9000/build.py',
+       "    if regenerating:\n        env.reload()\n    else:\n"
+       "        env.toolchain.path = path\n",
+       "    if not regenerating:\n        env.toolchain.path = path\n",
+       'LOAD-ONLY')
+mutant('c09-install-dirs-on-regen', ['C09'], 'bfg9000/builtins/toolchain.py',
+       "    if context.regenerating:\n        return\n    env = context.env\n",
+       "    env = context.env\n", 'LOAD-ONLY')
+mutant('c09-filefilter-from-json-partial', ['C09'], 'bfg9000/builtins/find.py',
+       "        f.exclude = tuple(NameGlob.from_json(i) for i in data['exclude'])\n",
+       "", 'from_json')
+mutant('c09-toolchain-path-from-args', ['C09'], 'bfg9000/driver.py',
+       "            build.load_toolchain(env, env.toolchain.path, args.regenerating)",
+       "            build.load_toolchain(env, env.toolchain.path)", 'LOAD-ONLY')
+twin('c09-twin-field-order', ['C09'], ENVF,
+     "                    'library_mode': self.library_mode,\n"
+     "                    'compdb': self.compdb,\n",
+     "                    'compdb': self.compdb,\n"
+     "                    'library_mode': self.library_mode,\n")
+twin('c09-twin-load-order', ['C09'], ENVF,
+     "        env.library_mode = LibraryMode(*data['library_mode'])\n"
+     "        env.compdb = data['compdb']\n",
+     "        env.compdb = data['compdb']\n"
+     "        env.library_mode = LibraryMode(*data['library_mode'])\n")
+twin('c09-twin-display-env-read', ['C09'], 'bfg9000/log.py',
+     "def _clicolor(environ):\n",
+     "def _clicolor(environ):\n    import os\n"
+     "    if os.environ.get('NO_COLOR'):\n        return 'never'\n")
+
+# -------------------------------------------------------------------- C10
+DRV = 'bfg9000/driver.py'
+mutant('c10-handler-returns-none', ['C10'], DRV,
+       "    except Exception as e:\n        logger.exception(e)\n"
+       "        return e.code if isinstance(e, build.ScriptExitError) else 1\n\n\n"
+       "def regenerate(",
+       "    except Exception as e:\n        logger.exception(e)\n\n\n"
+       "def regenerate(", 'EXIT-STATUS')
+mutant('c10-reload-exception-zero', ['C10'], DRV,
+       "    return e.code if isinstance(e, build.ScriptExitError) else 1\n\n\n"
+       "def environment_from_args",
+       "    return e.code if isinstance(e, build.ScriptExitError) else 0\n\n\n"
+       "def environment_from_args", 'EXIT-STATUS')
+mutant('c10-swallow-oserror', ['C10'], DRV,
+       "    except AbortConfigure:\n        pass\n    except Exception as e:\n"
+       "        return handle_reload_exception(e, suggest_rerun=True)",
+       "    except (AbortConfigure, OSError):\n        pass\n    except Exception as e:\n"
+       "        return handle_reload_exception(e, suggest_rerun=True)",
+       'EXIT-STATUS')
+mutant('c10-write-before-script', ['C10'], DRV,
+       "        backend = list_backends()[env.backend]\n"
+       "        build_inputs = build.configure_build(env, args.regenerating)\n"
+       "        backend.write(env, build_inputs)\n",
+       "        backend = list_backends()[env.backend]\n"
+       "        try:\n"
+       "            build_inputs = build.configure_build(env, args.regenerating)\n"
+       "        except ImportError:\n"
+       "            build_inputs = None\n"
+       "        backend.write(env, build_inputs)\n", 'WRITE-ORDER')
+mutant('c10-hooks-inside-open', ['C10'], 'bfg9000/backends/make/writer.py',
+       "    post_rules_hook.run(build_inputs, buildfile, env)\n\n"
+       "    with open(filepath.string(env.base_dirs), 'w') as out:\n"
+       "        buildfile.write(out)",
+       "    with open(filepath.string(env.base_dirs), 'w') as out:\n"
+       "        post_rules_hook.run(build_inputs, buildfile, env)\n"
+       "        buildfile.write(out)", 'WRITE-ORDER')
+mutant('c10-abort-without-touch', ['C10'], 'bfg9000/builtins/find.py',
+       "        for i in regen_files.outputs:\n"
+       "            if _path.exists(i, context.env.base_dirs):\n"
+       "                _path.touch(i, context.env.base_dirs)\n"
+       "        raise AbortConfigure()",
+       "        raise AbortConfigure()", 'EXIT-STATUS')
+mutant('c10-second-abort-site', ['C10'], 'bfg9000/builtins/regenerate.py',
+       "    if context.regenerating:\n        log.info('regenerating build files')\n",
+       "    if context.regenerating:\n        log.info('regenerating build files')\n"
+       "    if context.regenerating and not context.env.compdb:\n"
+       "        from ..exceptions import AbortConfigure\n"
+       "        raise AbortConfigure()\n", 'EXIT-STATUS')
+mutant('c10-exit-code-zero-raises', ['C10'], 'bfg9000/build.py',
+       "            if e.code:\n                raise ScriptExitError(filename, e.code)",
+       "            raise ScriptExitError(filename, e.code)", 'EXIT-STATUS')
+mutant('c10-skip-ignores-extra', ['C10'], 'bfg9000/builtins/find.py',
+       "        regenerate = regenerate or results[0] != found or results[1] != extra",
+       "        regenerate = regenerate or results[0] != found", 'EXIT-STATUS')
+mutant('c10-new-cache-writer-hook', ['C10'], 'bfg9000/builtins/clean.py',
+       "@make.post_rules_hook\ndef make_clean_rule(build_inputs, buildfile, env):\n",
+       "@make.post_rules_hook\ndef make_clean_rule(build_inputs, buildfile, env):\n"
+       "    from .find import FindCacheFile\n"
+       "    from . import regenerate as _regen\n"
+       "    FindCacheFile(_regen.RegenerateFiles.make(build_inputs, env),\n"
+       "                  build_inputs['find_cache']).save(env.builddir.string())\n",
+       'make_clean_rule')
+twin('c10-twin-logging', ['C10'], DRV,
+     "    except Exception as e:\n        logger.exception(e)\n"
+     "        return e.code if isinstance(e, build.ScriptExitError) else 1\n\n\n"
+     "def regenerate(",
+     "    except Exception as e:\n        logger.exception(e)\n"
+     "        logger.info('configuration failed')\n"
+     "        return e.code if isinstance(e, build.ScriptExitError) else 1\n\n\n"
+     "def regenerate(")
+twin('c10-twin-const-status', ['C10'], DRV,
+     "        print('shtab not found; install via `pip install shtab`')\n        return 1",
+     "        print('shtab not found; install via `pip install shtab`')\n        return 2")
